@@ -46,7 +46,14 @@ pub fn run(a: &Args) {
         for p in ["rw-", "---", "r-x", "-w-", "--x", "r--", "rwx", "-wx"] { lines.push(format!("anon {} {p} {}", if p == "rw-" { 2 } else { 1 }, (p == "r-x") as u32)); }
         let nth = rng.below(3) as usize;
         let scen = Scenario { threads: (0..nth).map(|i| ThreadSpec { kind: Kind::Block, sp_off: 0x800, pages: 2, name: Some(format!("k{i}").into_bytes()), at: None }).collect(), lines };
-        let target = match Target::spawn(&scen, &work) { Ok(t) => t, Err(e) => { out.notes.push(format!("spawn failed: {e}")); continue; } };
+        // every other target whose REAL linker list is walked is the fixed-address build of the target program (ET_EXEC: the
+        // addresses in its program headers are absolute, the load bias is zero)
+        let fixed = chain.is_none() && case % 4 == 0;
+        FIXED_ADDRESS_TARGET.store(fixed, std::sync::atomic::Ordering::SeqCst);
+        let spawned = Target::spawn(&scen, &work);
+        FIXED_ADDRESS_TARGET.store(false, std::sync::atomic::Ordering::SeqCst);
+        if fixed { out.count("target.fixed_address_executable"); }
+        let target = match spawned { Ok(t) => t, Err(e) => { out.notes.push(format!("spawn failed: {e}")); continue; } };
         let chain_base = target.fact_hex("chain");
         // the dump runs in a forked child under a watchdog: hostile linker data must not hang or abort the harness
         let direct = chain.map(|_| DirectAuxvDumpInfo { program_header_count: match (chain.map(|c| c.1).unwrap_or(0), rng.below(4)) { (0, 0) => 100000, (0, 1) => u64::MAX / 56 + 5, _ => 2 }, program_header_address: chain_base, linux_gate_address: 0, entry_address: 0 });
